@@ -80,6 +80,10 @@ func c10rules() []c10rule {
 		// a required dependency on a service that profiles disable (short list: every entry is required)
 		svc("required-dependency-on-disabled-short", "    depends_on: [b, opt]\n"),
 		svc("required-dependency-on-disabled-long", "    depends_on:\n      opt: {condition: service_started}\n"),
+		// the same on a service that had no depends_on before (the list is then canonicalised as written), with a
+		// later document refining the sibling entry: the required dependency on the disabled service stays required
+		{name: "required-dependency-on-disabled-short-then-sibling-refined", frag: "services:\n  d:\n    image: d\n    depends_on: [b, opt]\n---\nservices:\n  d:\n    depends_on:\n      b: {condition: service_healthy, required: false}\n"},
+		{name: "required-dependency-on-disabled-short-new-service", frag: "services:\n  d:\n    image: d\n    depends_on: [b, opt]\n"},
 		// optional, but unknown (not merely disabled): still dangling; one name sorting before, one after the disabled service
 		svc("depends-on-unknown-optional-first", "    depends_on:\n      aaa-nope: {condition: service_started, required: false}\n"),
 		svc("depends-on-unknown-optional-last", "    depends_on:\n      zzz-nope: {condition: service_started, required: false}\n"),
